@@ -175,6 +175,13 @@ func (g *genState) next(h *histRun, i int) *hop {
 			{Kind: "setid", R: nr, Ident: pick(rng, identNames)},
 			{Kind: "append", R: nr, Payload: "o2", PC: pick(rng, g.p.pcs)},
 		}
+		if o.LogID != "" {
+			// first the original replicas (some of which lack entries it holds) merge it while its heads are
+			// still the selected entries: a log under another id is never merged
+			for r := 0; r < g.nReps && r < nr; r++ {
+				g.pending = append(g.pending, hop{Kind: "join", R: r, Src: nr, Size: -1})
+			}
+		}
 		for _, so := range script {
 			if rng.Intn(3) > 0 {
 				g.pending = append(g.pending, so)
